@@ -128,6 +128,10 @@ def gen_foreign(w, k):
                 tracks[tr].append({"tick": off, "type": "note_off", "channel": ch, "note": pitch, "velocity": w.choice((0, 64))})
         if w.random() < 0.4:
             tracks[tr].append({"tick": w.randrange(0, 3000), "type": "control_change", "channel": 0, "control": 64, "value": w.choice((0, 127))})
+        # messages a performance does not keep (pitch bend, aftertouch, system exclusive): their delta times still count
+        for _ in range(w.choice((0, 0, 1, 3))):
+            kind = w.choice(("pitchwheel", "aftertouch", "polytouch", "sysex"))
+            tracks[tr].append({"tick": w.randrange(0, 4000), "type": kind, "channel": w.choice((0, 1)), "pitch": w.randrange(-8192, 8192), "value": w.randrange(0, 128), "note": w.randrange(21, 109)})
     # equal-tick tempo events of one file would be order-ambiguous: keep distinct ticks
     seen = set()
     for tr in tracks:
